@@ -228,7 +228,11 @@ theorem Bal.stableK : StableKRel WF Bal where
   fail _ s m _ h := Bal.fail m h
   depth _ _ _ _ h := h
   steps _ _ _ _ h := h
-  incall _ _ _ _ _ _ h _ := h
+  call k s i v _ h _ := ⟨k, h, fun s2 _ h2 => by
+    unfold callEpi
+    split
+    · exact h2
+    · exact Bal.fail _ h2⟩
   simple k s op s' r _ h hs := Bal_simple k s op s' r h hs
   collect _ s _ h := Bal.coll s h
   emit k s i im hw h hi := ⟨bump k i, Bal.pro hw h hi, fun _ _ h2 => Bal.epi _ h2⟩
